@@ -148,6 +148,16 @@ theorem const_lssb_char (c : BitVec 64) :
   simp only [h, if_false, e]
   exact ⟨hlt', BitVec.getLsbD_true_ctz_of_ne_zero h, fun i hi => BitVec.getLsbD_false_of_lt_ctz hi⟩
 
+/-- `regdump.c` prints each register field as `(reg & mask) >> ctz(mask)` (the one in-library use of `ctz`):
+    for a contiguous field mask of width `n ≥ 1` at bit position `s` (`n + s ≤ 32`) that is exactly the field's
+    value `(reg >> s) & (2^n − 1)`, through the generated `ctz` -/
+theorem regdump_field_extraction (reg n s : BitVec 32) (hn : 1#32 ≤ n) (hs : n + s ≤ 32#32) (hn' : n ≤ 32#32) (hs' : s ≤ 32#32) :
+    (reg &&& ((if n = 32#32 then 0xffffffff#32 else (1#32 <<< n) - 1#32) <<< s))
+        >>> (ctz ((if n = 32#32 then 0xffffffff#32 else (1#32 <<< n) - 1#32) <<< s))
+      = (reg >>> s) &&& (if n = 32#32 then 0xffffffff#32 else (1#32 <<< n) - 1#32) := by
+  unfold ctz bitcnt
+  bv_decide
+
 -- non-vacuity / sanity: concrete values through the generated code
 example : bitcnt 0xF0F01234#32 = 13#32 ∧ clz 0x00010000#32 = 15#32 ∧ ctz 0x00010000#32 = 16#32
     ∧ ilog2 0x00010000#32 = 16#32 ∧ w_const_lssb 0#64 = -1 ∧ w_const_pop 0xFFFFFFFFFFFFFFFF#64 = 64#32 := by decide
